@@ -2162,11 +2162,9 @@ theorem neverAt_of_all {c : CP} {rest : Str} (h : inp.all (fun d => d != c) = tr
   simp [he] at this
 
 /-- grammars given rule by rule -/
-theorem GrammarRel.of_rules {B : Expr → Expr → Prop} {g g' : Grammar} (hu : g'.usets = g.usets)
-    (h : All2 (fun r r' : Rule => r.name = r'.name ∧ r.mod = r'.mod ∧ Cong B r.body r'.body) g.rules g'.rules) :
-    GrammarRel B g g' := by
-  refine ⟨hu, fun n => ?_⟩
-  unfold Grammar.lookup
+theorem find_rel {Q : Expr → Expr → Prop} {rs rs' : List Rule} (n : String)
+    (h : All2 (fun r r' : Rule => r.name = r'.name ∧ r.mod = r'.mod ∧ Q r.body r'.body) rs rs') :
+    RuleRel Q (rs.find? (·.name == n)) (rs'.find? (·.name == n)) := by
   induction h with
   | nil => trivial
   | @cons r r' rs rs' hr _ ih =>
@@ -2174,6 +2172,11 @@ theorem GrammarRel.of_rules {B : Expr → Expr → Prop} {g g' : Grammar} (hu : 
     cases (r.name == n) with
     | true => exact hr
     | false => exact ih
+
+theorem GrammarRel.of_rules {B : Expr → Expr → Prop} {g g' : Grammar} (hu : g'.usets = g.usets)
+    (h : All2 (fun r r' : Rule => r.name = r'.name ∧ r.mod = r'.mod ∧ Cong B r.body r'.body) g.rules g'.rules) :
+    GrammarRel B g g' :=
+  ⟨hu, fun n => find_rel n h⟩
 
 theorem startsWithAt_bound : ∀ (x : Str) (p : Nat), startsWithAt inp x p = true → p + x.length ≤ inp.size
   | [], p, h => by simpa [startsWithAt] using h
@@ -2195,8 +2198,8 @@ theorem tryProgress_str (rl : Rule) (c : CP) (cs : Str) (hb : rl.body = .str (c 
         out.pos = s.pos + (c :: cs).length := by
       unfold ruleWrap
       by_cases hS : hasBit rl.mod SILENT = true
-      · exact ⟨_, _, by simp only [hS, ↓reduceIte], rfl⟩
-      · exact ⟨_, _, by simp only [hS, Bool.false_eq_true, ↓reduceIte], rfl⟩
+      · exact ⟨_, _, if_pos hS, rfl⟩
+      · exact ⟨_, _, if_neg hS, rfl⟩
     obtain ⟨out, ps, hw, hp⟩ := hw
     refine ⟨.matched out ps, ⟨1, ?_, by simp⟩, ?_⟩
     · show trySkip (step g inp 0 (run g inp 0)) (some rl) s = _
